@@ -89,6 +89,7 @@ Demands(e, s, t) ==
   /\ Chk(X03_WaiterFresh(t), "P", e, "X03_WaiterFresh")
   /\ Chk(X03_ParkedCaughtUp(t), "P", e, "X03_ParkedCaughtUp")
   /\ Chk(e.a = "FRecv" => P_StaleDropped(s, t, e.args.f, e.args.w), "P", e, "X03_StaleDropped")
+  /\ Chk(e.a = "FRecv" => P_HWTaken(s, t, e.args.f, e.args.w), "P", e, "X03_HWTaken")
   /\ Chk(\A i \in DOMAIN e.obs.rp :
             LET x == e.obs.rp[i] IN
             /\ Unans(e, s) /\ x.l = "a" /\ x.f = e.args.f /\ x.e = s.lp[e.args.f].e /\ e.obs.late # "no",
